@@ -806,11 +806,16 @@ func loopbackAbsorbs() int {
 }
 
 func pollOnce(shim *shimClient, sid string, sent map[int]wsMsg, polled int) int {
+	n, _ := pollOnceStatus(shim, sid, sent, polled)
+	return n
+}
+
+func pollOnceStatus(shim *shimClient, sid string, sent map[int]wsMsg, polled int) (int, int) {
 	hx.Emit("PollBegin", "sid", sid)
 	code, body := shim.call("poll", fmt.Sprintf(`{"id":%q}`, sid), "1")
 	if code != 200 {
 		hx.Emit("Call", "kind", "poll", "arg", "valid", "sid", sid, "status", code)
-		return polled
+		return polled, code
 	}
 	msgs, ok := decodePoll(body)
 	same := ok
@@ -821,8 +826,9 @@ func pollOnce(shim *shimClient, sid string, sent map[int]wsMsg, polled int) int 
 		}
 	}
 	hx.Emit("Call", "kind", "poll", "arg", "valid", "sid", sid, "status", code, "first", polled+1, "count", len(msgs), "same", same)
-	return polled + len(msgs)
+	return polled + len(msgs), code
 }
+
 
 type wsCases struct {
 	Seqs     [][]string `json:"seqs"`
@@ -962,9 +968,13 @@ func wsCallsDriver(a *Args) {
 						}
 						time.Sleep(10 * time.Millisecond)
 					}
-					before := polled
-					polled = pollOnce(shim, sid, sent, polled)
-					_ = before
+					var st int
+					polled, st = pollOnceStatus(shim, sid, sent, polled)
+					if st == 400 {
+						// the poll reported the end of the session: like after a close call that was answered 200,
+						// the session is gone and the next "valid" step starts a new one
+						closedSid, cur = sid, ""
+					}
 					continue
 				case "closed":
 					needClosed()
